@@ -21,6 +21,13 @@ type Loaded struct {
 }
 
 // loadRepo loads /repo/... from the current working tree with overlay files (virtual path -> real file).
+var repoDir = func() string {
+	if d := os.Getenv("VERIF_REPO"); d != "" {
+		return d
+	}
+	return "/repo"
+}()
+
 func loadRepo(overlay map[string]string, tags string, patterns ...string) *Loaded {
 	ov := map[string][]byte{}
 	for v, r := range overlay {
@@ -33,7 +40,7 @@ func loadRepo(overlay map[string]string, tags string, patterns ...string) *Loade
 	}
 	cfg := &packages.Config{
 		Mode:       packages.LoadAllSyntax,
-		Dir:        "/repo",
+		Dir:        repoDir,
 		Overlay:    ov,
 		BuildFlags: []string{"-tags=" + tags},
 		Env:        append(os.Environ(), "GOFLAGS=-mod=mod", "GOPROXY=off", "GOSUMDB=off", "GOTOOLCHAIN=local"),
